@@ -81,12 +81,13 @@ def collLine (j : Json) : String :=
   let cab := g "cab" false; let cba := g "cba" false; let caa := g "caa" false
   let rab2 := g "rab2" true; let cab2 := g "cab2" false
   let mrab := ofRank (rank max f d0 a b)
+  let ro := bool j "rankonly"
   let corr := firstFail [
     ("rab", mrab == rab), ("rba", ofRank (rank max f d0 b a) == rba),
     ("raa", ofRank (rank max f d0 a a) == raa), ("rbb", ofRank (rank max f d0 b b) == rbb),
-    ("cab", ofCmp (cmp max f d0 a b) == cab), ("cba", ofCmp (cmp max f d0 b a) == cba),
+    ("cab", ro || ofCmp (cmp max f d0 a b) == cab), ("cba", ro || ofCmp (cmp max f d0 b a) == cba),
     ("caa", ofCmp (cmp max f d0 a a) == caa),
-    ("rab2", ofRank (rank max f 0 a b) == rab2 || max != 16), ("cab2", ofCmp (cmp max f 0 a b) == cab2 || max != 16)]
+    ("rab2", ofRank (rank max f 0 a b) == rab2 || max != 16), ("cab2", ro || ofCmp (cmp max f 0 a b) == cab2 || max != 16)]
   let depthsOk := ["rab", "rba", "raa", "rbb", "cab", "cba", "caa"].all (fun k => nat (fld j k) "d1" == d0)
   let noCrash := [rab, rba, raa, rbb, cab, cba, caa].all (fun r => r != .hang && r != .otherPanic)
   let allRet := [rab, rba, raa, rbb, cab, cba, caa].all isRet
@@ -103,7 +104,7 @@ def collLine (j : Json) : String :=
       ("depth-restored", depthsOk),
       ("refl", !isRet caa || caa == .eq true),
       ("symm", !(isRet cab && isRet cba) || cab == cba),
-      ("agrees-with-rank", !(isRet cab && isRet rab) || (cab == .eq true) == (rab == .rank .eq)),
+      ("agrees-with-rank", ro || !(isRet cab && isRet rab) || (cab == .eq true) == (rab == .rank .eq)),
       ("rebuilt-copy-equal", !bool j "copy" || !isRet cab || cab == .eq true),
       ("single-mutation-unequal", !bool j "mut" || !isRet cab || cab == .eq false),
       ("independent-of-copies-and-history", max != 16 || !(isRet cab && isRet cab2) || cab == cab2)]
